@@ -38,6 +38,11 @@ def audit(lines):
             if any(th >= math.pi for th in rn):
                 continue
             near = any(abs(math.pi - th) < BAND[l.prec] for th in rn)
+            if any(math.pi - th < 4 * vlib.EPS[l.prec] * math.pi for th in rn):
+                # the rotation angle is below pi by less than the format can resolve (|q_w| = cos(theta/2) is
+                # below the rounding error of cos): the sign of q_w, hence the branch of log, is decided by
+                # rounding.  Kept in the audit, but keyed separately (known finding KF-C02-half-turn-unresolvable).
+                base = dict(base, key=dict(base['key'], theta_band='half_turn_unresolvable'))
             def judge_le(errs, m):
                 out = []
                 if not (errs[0] <= m['tol']):
